@@ -111,6 +111,14 @@ def find_state(prog, m):
                                                                    and t.value.id == pname for t in x.targets)):
                             out.append((fi, "default %s=%s" % (pname, norm(dv)), x, "mutable default argument that is mutated"))
                             break
+            # a default that CONSTRUCTS an object is evaluated once: every call that omits the argument gets the same instance
+            # (Environment(factory=ObjectFactory()): set_default_creator on one environment changes what all others create)
+            for pname, dv in defaults:
+                if isinstance(dv, ast.Call) and norm(dv.func).split(".")[-1] not in (
+                        "dict", "list", "set", "OrderedDict", "defaultdict", "frozenset", "tuple", "object", "int", "str", "float", "bool"):
+                    cal = prog.deref(prog.resolve_expr(fi.scope, dv.func)) if isinstance(dv.func, (ast.Name, ast.Attribute)) else None
+                    if hasattr(cal, "methods"):       # a class of the package
+                        out.append((fi, "default %s=%s" % (pname, norm(dv)), dv, "one object constructed as a default argument is shared by every call"))
         local_names = set(fi.all_param_names())
         for x in body_walk(node):
             if isinstance(x, (ast.Assign, ast.AnnAssign)):
